@@ -23,7 +23,7 @@ func CompileLuaChunk(source string, s ast.BlockStat) (kidx uint, consts []ir.Con
 	rootIrC := ir.NewCodeBuilder("<global chunk>", kp)
 	rootIrC.DeclareLocal("_ENV", rootIrC.GetFreeRegister())
 	irC := rootIrC.NewChild("<main chunk>")
-	c := &compiler{CodeBuilder: irC}
+	c := &compiler{CodeBuilder: irC, nesting: new(nesting)}
 	c.compileFunctionBody(ast.Function{
 		ParList: ast.ParList{HasDots: true},
 		Body:    s,
@@ -34,12 +34,39 @@ func CompileLuaChunk(source string, s ast.BlockStat) (kidx uint, consts []ir.Con
 
 type compiler struct {
 	*ir.CodeBuilder
+	nesting *nesting // shared by all the compilers of a chunk
 }
 
 func (c *compiler) NewChild(name string) *compiler {
 	return &compiler{
 		CodeBuilder: c.CodeBuilder.NewChild(name),
+		nesting:     c.nesting,
 	}
+}
+
+// maxNestingLevel is the maximum depth of the AST that can be compiled.  The
+// compiler is recursive so this bounds the depth of the Go stack.  It is much
+// larger than the nesting the parser allows because chains of binary operators
+// or of indexing / call suffixes are parsed iteratively but make a deep AST.
+const maxNestingLevel = 100000
+
+// nesting tracks the depth of the AST node being compiled.
+type nesting struct {
+	level int
+}
+
+// enterNode must be called before compiling a child node.  It panics with a
+// compilation error if the AST is too deep.  The caller must defer a call to
+// leaveNode.
+func (c *compiler) enterNode(n ast.Locator) {
+	c.nesting.level++
+	if c.nesting.level > maxNestingLevel {
+		panic(Error{Where: n, Message: "chunk is nested too deeply"})
+	}
+}
+
+func (c *compiler) leaveNode() {
+	c.nesting.level--
 }
 
 // Names of various labels and registers used during compilation.
